@@ -728,7 +728,9 @@ impl<Octs: Octets> PeerDownNotification<Octs> {
     //pub fn fsm(&self) -> Option(Bgp::FsmEvent) {
     pub fn fsm(&self) -> Option<u16> {
         if self.reason() == PeerDownReason::LocalFsm {
-            Some(u16::from_be_bytes(self.as_ref()[1..=2].try_into().unwrap()))
+            Some(u16::from_be_bytes(
+                self.as_ref()[COFF+1..=COFF+2].try_into().unwrap()
+            ))
         } else {
             None
         }
